@@ -542,7 +542,7 @@ func (g *Gen) EstablishOn(peer string) *GSession {
 	return nil
 }
 
-// ModifyKind sends the modification of the given kind: 0 Update FAR (handover), 1 Update QER, 2 Update PDR,
+// ModifyKind sends the modification of the given kind (6 refused half way, 7 without any rule, 8 every rule removed): 0 Update FAR (handover), 1 Update QER, 2 Update PDR,
 // 3 new bearer, 4 bearer removed, 5 new CP F-SEID.
 func (g *Gen) ModifyKind(s *GSession, kind int) { g.modifyKind(s, kind) }
 
@@ -597,8 +597,8 @@ func (g *Gen) modifyKind(s *gsession, forced int) {
 		kind = 3
 
 		// a session without any rule is still a session: it can be modified without creating anything
-		if forced < 0 && g.R.Intn(2) == 0 {
-			if g.R.Intn(2) == 0 {
+		if (forced < 0 && g.R.Intn(2) == 0) || forced == 5 || forced == 7 {
+			if (forced < 0 && g.R.Intn(2) == 0) || forced == 5 {
 				s.cp = g.cpSeid()
 				r.NewCP = s.cp
 			}
@@ -627,7 +627,7 @@ func (g *Gen) modifyKind(s *gsession, forced int) {
 	// a modification that is refused half way: rules of the session are updated / removed in the same message before an
 	// unknown rule id makes the agent refuse it - nothing of it may stay (neither in the datapath nor in what later requests
 	// and the session's end are based on)
-	if forced < 0 && g.Opt.Rejects && len(s.bearers) > 0 && g.R.Intn(9) == 0 {
+	if (forced == 6 || (forced < 0 && g.Opt.Rejects && g.R.Intn(9) == 0)) && len(s.bearers) > 0 {
 		b := s.bearers[g.R.Intn(len(s.bearers))]
 
 		switch k := g.R.Intn(4); {
@@ -649,6 +649,35 @@ func (g *Gen) modifyKind(s *gsession, forced int) {
 		}
 
 		g.Stats["mod_rejected_midway"]++
+		w.Mod(s.peer, r)
+
+		return
+	}
+
+	if forced == 7 { // a modification that carries no rule at all
+		g.Stats["mod_empty"]++
+		w.Mod(s.peer, r)
+
+		return
+	}
+
+	if forced == 8 { // every rule of the session is removed (the session stays)
+		for _, b := range s.bearers {
+			r.RPDR = append(r.RPDR, b.ulPDR, b.dlPDR)
+			r.RFAR = append(r.RFAR, b.ulFAR, b.dlFAR)
+
+			if b.appQER != 0 {
+				r.RQER = append(r.RQER, b.appQER)
+			}
+		}
+
+		if s.sessQER != 0 {
+			r.RQER = append(r.RQER, s.sessQER)
+			s.sessQER = 0
+		}
+
+		s.bearers = nil
+		g.Stats["mod_rmall"]++
 		w.Mod(s.peer, r)
 
 		return
